@@ -90,8 +90,10 @@ func TestTear(t *testing.T) {
 	parked := make(chan struct{}, 1)
 	release := make(chan struct{})
 	var gmu sync.Mutex
+	var gatePoint atomic.Value // which hook point the next armed gate closes at
+	gatePoint.Store("frame.prefix")
 	vhook.SetHandler(func(p string, x interface{}) {
-		if p != "frame.prefix" || !atomic.CompareAndSwapInt32(&armed, 1, 0) {
+		if p != gatePoint.Load().(string) || !atomic.CompareAndSwapInt32(&armed, 1, 0) {
 			return
 		}
 		gmu.Lock()
@@ -217,6 +219,32 @@ func TestTear(t *testing.T) {
 				close(rel)
 				if !waitResp(n) {
 					break
+				}
+			}
+			// second window (TCP): a flush of the connection's write buffer is parked after the bytes went out and
+			// before the buffer is reset, while media keeps coming; whoever flushes must still own the connection
+			if transport == "tcp" {
+				for k := 0; k < overlaps/4; k++ {
+					gmu.Lock()
+					release = make(chan struct{})
+					rel := release
+					gmu.Unlock()
+					gatePoint.Store("flush.written")
+					atomic.StoreInt32(&armed, 1)
+					n := send("OPTIONS", base, nil) // a response is written and flushed
+					cseqs = append(cseqs, n)
+					select {
+					case <-parked:
+						gated++
+						time.Sleep(3 * time.Millisecond) // several media packets are published meanwhile
+					case <-time.After(2 * time.Second):
+						atomic.StoreInt32(&armed, 0)
+					}
+					close(rel)
+					gatePoint.Store("frame.prefix")
+					if !waitResp(n) {
+						break
+					}
 				}
 			}
 			gatedTotal += gated
